@@ -256,6 +256,20 @@ CHECKS = {
          "(no isolation promised for them).",
     technique="TLA+ heap/copy-on-write model + TLC; program replay on three stacks; TLC trace validation",
     ref="5.19"),
+ "C18": dict(
+    level="exploration",
+    text="PARTIAL CLAIM. Codec.tla is the case analysis: layer stackings (protobuf; compression with its 0x00/id marker and "
+         "size threshold; AES-GCM with version byte and nonce; both nestings), both sides of the threshold, tamper / truncate / "
+         "wrong-key, and the acceptable outcome classes (never a panic; an encrypted record never decodes to a different "
+         "resource; wrong key rejected; raw-vs-compressed dispatch unambiguous); TLC checks these laws and enumerates 2592 "
+         "abstract metadata shapes. The harness concretises the shapes and round-trips them through all 6 stackings (threshold "
+         "placed exactly at / just above the inner encoding size), the protobuf wire form, metadata YAML and version/phase "
+         "text forms, and decodes every truncation and four substitutions per byte of every stacking's encoding plus a wrong "
+         "key, each under recover; TLC judges the outcome classes (TraceCodec.tla). Not claimed: totality over ARBITRARY byte "
+         "strings (no state machine behind it; that is fuzzing territory).",
+    note="Trusted: AES-GCM, zstd, TLC. Bounded neighbourhoods only. Known finding: metadata YAML truncates sub-second timestamps.",
+    technique="TLA+ codec case analysis + TLC enumeration of vectors; bounded-exhaustive tamper replay; TLC trace validation",
+    ref="5.18"),
 }
 
 NOT_YET = "check not built yet in this round (planned, see DESIGN.md section 5)"
